@@ -527,7 +527,7 @@ def run(R):
     for i in INS:
         pool = [b for b, _ in values[i]]
         for o in OUTS:
-            for _ in range(10 if quick else 120):
+            for _ in range(16 if quick else 120):
                 nd = rng.randrange(1, 5)
                 shape = tuple(rng.randrange(1, 10) for _ in range(nd))
                 if rng.random() < 0.15:
